@@ -64,7 +64,7 @@ def gen_bed(rng, contigs, ncols, zero_width):
     for i, (c, s, e) in enumerate(rows):
         f = [c, str(s), str(e)]
         if ncols >= 4:
-            f.append(f"G{i // 3}" if rng.random() < 0.9 else "-")
+            f.append(str(rng.choice(["TP53 exon 2", "a b", "x  y"])) if rng.random() < 0.08 else f"G{i // 3}" if rng.random() < 0.9 else "-")
         if ncols >= 6:
             f += [str(int(rng.integers(0, 1000))), str(rng.choice(["+", "-"]))]
         out.append(f)
